@@ -50,7 +50,8 @@ def _surr(x, ks):  # noqa: ANN001, ANN202
 def view_model(name: str):  # noqa: ANN201
     """V1: parameter-dependent computed coefficient (n), derived variable/parameter, readout.
     V2: V1 + a STATE-dependent computed coefficient on v3.
-    V3: V1 + a surrogate with a flux output and a plain output."""
+    V3: V1 + a surrogate with a flux output and a plain output.
+    V4: V3 whose ONLY computed coefficient sits on the surrogate flux (none on a reaction)."""
     from mxlpy import Derived, Model
 
     m = Model()
@@ -59,7 +60,8 @@ def view_model(name: str):  # noqa: ANN201
     m.add_derived("tot", _sum2, args=["x", "y"])
     m.add_derived("k12", fnlib.add, args=["k1", "k2"])
     m.add_reaction("vin", fnlib.const, args=["c"], stoichiometry={"x": 1})
-    m.add_reaction("v1", fnlib.ma1, args=["x", "k1"], stoichiometry={"x": -1, "y": "n"})
+    # (V4: no REACTION carries a computed coefficient - only its surrogate flux does)
+    m.add_reaction("v1", fnlib.ma1, args=["x", "k1"], stoichiometry={"x": -1, "y": 2.0 if name == "V4" else "n"})
     # an explicit zero coefficient: v2 neither produces nor consumes x
     m.add_reaction("v2", fnlib.ma1, args=["y", "k2"], stoichiometry={"y": -1, "x": 0.0})
     if name == "V2":
@@ -72,10 +74,15 @@ def view_model(name: str):  # noqa: ANN201
 
         m.add_parameter("ks", 0.3)
         m.add_surrogate("s1", qss.Surrogate(model=_surr, args=["x", "ks"], outputs=["vs", "aux"], stoichiometries={"vs": {"x": -1.0, "y": 1.0}}))
+    if name == "V4":
+        from mxlpy.surrogates import qss
+
+        m.add_parameter("ks", 0.3)
+        m.add_surrogate("s1", qss.Surrogate(model=_surr, args=["x", "ks"], outputs=["vs", "aux"], stoichiometries={"vs": {"x": -1.0, "y": Derived(fn=fnlib.const, args=["n"])}}))
     return m
 
 
-PARAMS = {"V1": ["c", "k1", "k2", "k3", "n"], "V2": ["c", "k1", "k2", "k3", "n"], "V3": ["c", "k1", "k2", "k3", "n", "ks"]}
+PARAMS = {"V1": ["c", "k1", "k2", "k3", "n"], "V2": ["c", "k1", "k2", "k3", "n"], "V3": ["c", "k1", "k2", "k3", "n", "ks"], "V4": ["c", "k1", "k2", "k3", "n", "ks"]}
 
 
 class Exec:
@@ -489,7 +496,7 @@ class Exec:
 
 def gen_case(rng: SimRng, tier: str) -> dict:  # noqa: ARG001, C901, PLR0912
     r = rng("case")
-    model = rng.weighted("case", [("V1", 3), ("V2", 3), ("V3", 2)])
+    model = rng.weighted("case", [("V1", 3), ("V2", 3), ("V3", 2), ("V4", 2)])
     params = PARAMS[model]
     hist = []
     nseg = r.randint(1, 4)
